@@ -366,16 +366,31 @@ fn create_network(
         &vehicle_type_lookup,
     );
 
-    let number_of_service_trips: VehicleCount = service_trips
-        .values()
-        .map(|trips| trips.len() as VehicleCount)
+    // upper limit for the number of vehicles starting at a depot without capacity restriction:
+    // the vehicles required by all service trips plus one vehicle per maintenance track
+    let number_of_required_vehicles: VehicleCount = service_trips
+        .iter()
+        .flat_map(|(vehicle_type, trips)| {
+            let vehicle_type = vehicle_types.get(*vehicle_type).unwrap();
+            trips.iter().map(move |trip| {
+                trip.passengers()
+                    .div_ceil(vehicle_type.capacity())
+                    .max(trip.seated().div_ceil(vehicle_type.seats()))
+            })
+        })
+        .sum();
+    let number_of_maintenance_tracks: VehicleCount = json_input
+        .maintenance_slots
+        .iter()
+        .flatten()
+        .map(|slot| slot.track_count as VehicleCount)
         .sum();
     let depots = create_depots(
         json_input,
         &locations,
         &location_lookup,
         &vehicle_type_lookup,
-        number_of_service_trips,
+        number_of_required_vehicles + number_of_maintenance_tracks,
     );
 
     let maintenance_slots = create_maintenance_slots(json_input, &locations, &location_lookup);
